@@ -357,6 +357,7 @@ class AttWorld:
         self.sync_errors = []
         self.db = None
         self._snap = None
+        self.cfg_mtu = {'att': 23}
 
     # -- life cycle ----------------------------------------------------------
     def __enter__(self):
@@ -397,7 +398,6 @@ class AttWorld:
         if self.forward:
             rx = self.peer_rx['att']
             self.client_dev.l2cap_channel_manager.register_fixed_channel(ATT_CID, lambda _h, pdu: rx.append(bytes(pdu)))
-        self.default_mtu = 23
 
     def open_eatt(self, name='eatt', mtu=2048):
         """Open one real EATT bearer from the peer; its ATT_MTU on the server is
@@ -425,6 +425,7 @@ class AttWorld:
             rx = self.peer_rx[name] = []
             cch.sink = lambda pdu: rx.append(bytes(pdu))
         self.eatt[name] = (sch, cch)
+        self.cfg_mtu[name] = sch.att_mtu
         return sch
 
     # -- configuration ---------------------------------------------------------
@@ -441,27 +442,32 @@ class AttWorld:
         self.s_conn.authenticated = bool(authenticated)
 
     def set_mtu(self, kind, mtu):
-        """Harness-side assignment of the bearer ATT_MTU (the real Exchange MTU path is
-        exercised by injecting opcode 0x02)."""
+        """Harness-side assignment of the bearer ATT_MTU, remembered as the value
+        restore() goes back to (the real Exchange MTU path is exercised by injecting
+        opcode 0x02; use note_mtu() after that)."""
         self.bearer(kind).att_mtu = mtu
+        self.cfg_mtu[kind] = mtu
+
+    def note_mtu(self, kind, mtu):
+        """Record the ATT_MTU that restore() re-establishes, without assigning it."""
+        self.cfg_mtu[kind] = mtu
 
     def snapshot(self):
         self._snap = [(a, a.value, a.permissions) for a in self.server.attributes]
 
-    def restore(self, mtu=None):
+    def restore(self, subscribers=True):
         """Undo the effects of injected requests: attribute values, dynamic cells,
-        subscriptions, ATT_MTU of every bearer."""
+        subscriptions, ATT_MTU of every bearer (back to its configured value)."""
         for a, v, p in self._snap:
             a.value = v
             a.permissions = p
         for c in self.db.cells:
             c.data = c.initial
-        if self.server.subscribers:
+        if subscribers and self.server.subscribers:
             self.server.subscribers.clear()
-        m = self.default_mtu if mtu is None else mtu
-        self.s_conn.att_mtu = m
-        for sch, _ in self.eatt.values():
-            sch.att_mtu = m
+        self.s_conn.att_mtu = self.cfg_mtu['att']
+        for name, (sch, _) in self.eatt.items():
+            sch.att_mtu = self.cfg_mtu[name]
 
     def dirty(self):
         """Handles whose stored value differs from the snapshot (sanity / C11 oracle)."""
@@ -470,11 +476,15 @@ class AttWorld:
         return out
 
     # -- injection ------------------------------------------------------------
-    def inject(self, kind, pdu: bytes, settle=True):
+    def inject(self, kind, pdu: bytes, settle=True, l2cap=False):
         """Deliver raw ATT bytes to the server side of bearer `kind`; returns the list
         of PDUs the server device transmitted on that bearer until quiescence.
         Exceptions escaping synchronously from the receive path are recorded in
-        self.sync_errors (they would propagate into Host packet dispatch)."""
+        self.sync_errors (they would propagate into Host packet dispatch).
+        EATT: by default the PDU is handed to the channel's `sink` (cases stay
+        independent); with l2cap=True it is delivered as one K-frame (SDU length + PDU)
+        to `LeCreditBasedChannel.on_pdu`, i.e. including L2CAP reassembly state and
+        credit accounting of the real channel."""
         cap = self.captured[kind]
         del cap[:]
         try:
@@ -487,6 +497,8 @@ class AttWorld:
                     self.eatt[kind][1].write(pdu)
             elif kind == 'att':
                 self.server_dev.l2cap_channel_manager.on_pdu(self.s_conn, ATT_CID, pdu)
+            elif l2cap:
+                self.eatt[kind][0].on_pdu(struct.pack('<H', len(pdu)) + pdu)
             else:
                 self.eatt[kind][0].sink(pdu)
         except Exception as e:  # noqa: BLE001 - recorded, never swallowed silently
